@@ -8,19 +8,21 @@ W2 = ('both parses succeed', 'second parse succeeds after a failed first parse',
 
 def plan(tier):
     th = tier == 'thorough'
+    H = dict(timeout=3400, est_gb=10)
     qs = [
-        Q(P, 1, ['***'], second=['***'], wit=W2),                   # any token, then any token, on one parser
-        Q(P, 1, ['-p', '?*'], second=['--o=**'], wit=W2[:1]),       # option given in both calls
-        Q(P, 1, ['-**', '**'], second=['-**', '**'], wit=W2, timeout=1800, est_gb=8),
-        Q(P, 2, ['***'], second=['***'], wit=W2),                   # reversible toggle with default, option with default
-        Q(P, 2, ['--?'], second=['--no-?'], wit=W2),
-        Q(P, 3, ['-o', '*', '--m=*'], second=['--m=*', '-o=*', '*'], wit=W2[:1]),
-        Q(P, 5, ['**'], second=['**'], env={0: '**', 2: '**'}, wit=W2),   # environment set: env-sourced values must not stick either
-        Q(P, 6, ['***'], second=['***'], wit=W2),
+        Q(P, 1, ['***'], second=['-x'], wit=W2[:1] + W2[2:]),       # a toggle counted in the first call must not be counted in the second
+        Q(P, 1, ['***'], second=['--o=v'], wit=W2[:1] + W2[2:]),    # an option given in the first call must not be 'already given'
+        Q(P, 1, ['***'], second=['--m=v', 'p'], wit=W2[:1] + W2[2:]),
+        Q(P, 1, ['-x', '--o=v', 'p'], second=['***'], wit=W2[:2]),  # and the other way round: any first vector
+        Q(P, 2, ['***'], second=['--no-a'], wit=W2[:1] + W2[2:]),
+        Q(P, 2, ['--no-a'], second=['***'], wit=W2[:2]),
+        Q(P, 3, ['-o', 'v', '--m=w'], second=['****'], wit=W2[:2]),
+        Q(P, 5, ['**'], second=['--o=c', '-t'], env={0: '**', 2: '**'}, wit=W2[:1] + W2[2:]),   # environment-sourced values must not stick either
+        Q(P, 5, ['--o=c'], second=['**'], env={0: '**', 1: '**'}, wit=W2[:2]),
     ]
     if th:
-        qs += [Q(P, 1, ['***', '***'], second=['***', '***'], wit=W2, timeout=3400, est_gb=10), Q(P, 3, ['***', '**'], second=['***', '**'], wit=W2, timeout=3400, est_gb=10),
-               Q(P, 9, ['***', '**'], second=['***'], wit=W2, timeout=3000), Q(P, 12, ['***'], second=['***'], wit=W2), Q(P, 7, ['***'], second=['***'], env={0: '**'}, wit=W2)]
+        qs += [Q(P, 1, ['***'], second=['***'], wit=W2, **H), Q(P, 2, ['***'], second=['***'], wit=W2, **H), Q(P, 3, ['***', '**'], second=['***', '**'], wit=W2, **H),
+               Q(P, 6, ['***'], second=['***'], wit=W2, **H), Q(P, 12, ['***'], second=['***'], wit=W2, **H), Q(P, 7, ['***'], second=['***'], env={0: '**'}, wit=W2, **H)]
     corpus = [rt_entry(1, t, P, second=s) for t, s in ((['--o', 'v'], ['--o', 'v']), (['-x'], ['-xx']), (['-z'], ['-x']), (['-x'], ['-z']), (['--m=a'], ['--m=b']), (['p'], ['q', 'r']), ([], ['-p=1']))] + \
              [rt_entry(2, t, P, second=s) for t, s in ((['--a'], ['--no-a']), (['--no-a'], ['--a']), (['--o=v'], []), ([], ['--o=v']))] + \
              [rt_entry(5, t, P, second=s, env=e) for t, s, e in (([], [], {0: 'e', 2: 'yes'}), (['--o=c'], [], {0: 'e'}), (['-t'], ['-t'], {2: 'no'}))]
